@@ -895,7 +895,7 @@ def op_conv(g):
     if g.rng.random() < 0.5:
         mk = lambda lo, hi: g.const(np.array([g.rng.uniform(lo, hi) for _ in range(O)], dtype=F32), how="init")
         y = g.add("BatchNormalization", [y, mk(0.5, 2), mk(-1, 1), mk(-1, 1), mk(0.5, 2)], mag=y.mag * 4 + 4,
-                  **({"epsilon": 1e-3} if g.rng.random() < 0.5 else {}))
+                  **({"epsilon": g.rng.choice([1e-3, 0.1, 0.5])} if g.rng.random() < 0.6 else {}))   # a large epsilon: ignoring it shows far above tolerance
         g.hit("motif:conv_bn")
     return y
 
